@@ -21,7 +21,8 @@ import c08_gen, c08_real, c08_sym, c08_trace, progen
 
 MODEL_FILES = ['MaltModel/Analysis/QualNames.lean', 'MaltModel/Analysis/Activity.lean', 'MaltModel/Analysis/ActivityFn.lean',
                'MaltModel/Analysis/ActivityHyp.lean', 'MaltModel/Spec/Symtable.lean', 'MaltModel/Spec/Dynamic.lean',
-               'MaltModel/Proofs/C08Activity.lean', 'MaltModel/Drv/C08.lean']
+               'MaltModel/Proofs/C08Activity.lean', 'MaltModel/Proofs/C08Dynamic.lean', 'MaltModel/Proofs/C08Classes.lean',
+               'MaltModel/Drv/C08.lean']
 CLASSES = ['walrusInComp', 'harmfulLeaks', 'classShadow', 'argAnnotations', 'nonlocalBelow', 'globalBelow']
 PRELUDE_LINES = c08_gen.PRELUDE.count('\n')
 MAX_STORED_FAILS = 40
